@@ -75,11 +75,12 @@ fn main() {
             }
         },
         Some("replay") => match args.get(2) {
-            Some(p) => runner::replay_file(Path::new(p)),
+            Some(p) => runner::replay_file(Path::new(p), args.iter().any(|a| a == "--quiet")),
             None => 2,
         },
         Some("check") => cmd_check(&args),
         Some("worker") => cmd_worker(&args),
+        Some("record") => cmd_record(&args),
         Some("digest") => cmd_digest(&args),
         Some("journal-run") => cmd_journal_run(&args),
         Some("dump-artifacts") => {
@@ -118,7 +119,7 @@ fn cmd_digest(args: &[String]) -> i32 {
         None => return 2,
     };
     let runs = args.iter().position(|a| a == "--runs").and_then(|i| args.get(i + 1)).and_then(|s| s.parse().ok()).unwrap_or((def.runs)(tier));
-    match runner::run_all(def.run, seed_from_env(), &id, tier, runs, serial) {
+    match runner::run_all(def.run, def.isolated, seed_from_env(), &id, tier, runs, serial) {
         Ok(m) => {
             println!("{} runs={} worlds={} ops={}", m.digest, m.runs, m.worlds, m.ops);
             0
@@ -136,7 +137,30 @@ fn cmd_worker(args: &[String]) -> i32 {
         None => return 2,
     };
     let n = |i: usize| args[i].parse::<u64>().unwrap_or(0);
-    runner::worker_main(def.run, n(4), &args[2], parse_tier(args.get(3)), n(5) as usize, n(6) as usize, (n(7) as usize).max(1))
+    runner::worker_main(def.run, def.isolated, n(4), &args[2], parse_tier(args.get(3)), n(5) as usize, n(6) as usize, (n(7) as usize).max(1))
+}
+
+/// `gmsim record <run|worker> <ID> <tier> <seed> <run> <workers> <oracle>`: the run-level or
+/// worker-level schedule as a JSON array on stdout (null if the violation does not occur).
+fn cmd_record(args: &[String]) -> i32 {
+    if args.len() < 9 {
+        return 2;
+    }
+    let def = match props::lookup(&args[3]) {
+        Some(d) => d,
+        None => return 2,
+    };
+    let tier = parse_tier(args.get(4));
+    let seed: u64 = args[5].parse().unwrap_or(runner::DEFAULT_SEED);
+    let run: usize = args[6].parse().unwrap_or(0);
+    let n: usize = args[7].parse().unwrap_or(1);
+    let s = if args[2] == "worker" {
+        runner::worker_level_schedule(def.run, def.isolated, seed, &args[3], tier, run, n.max(1), &args[8])
+    } else {
+        runner::run_level_schedule(def.run, seed, &args[3], tier, run, &args[8])
+    };
+    println!("{}", serde_json::to_string(&s).unwrap());
+    0
 }
 
 fn cmd_journal_run(args: &[String]) -> i32 {
@@ -214,7 +238,7 @@ fn cmd_check(args: &[String]) -> i32 {
     runner::spawn_watchdog(on_stuck.clone());
     let runs = (def.runs)(tier);
     println!("gmsim: property={id} tier={} seed={seed} runs={runs} tree={}", tier.name(), runner::tree_rev());
-    let m = match runner::run_all(def.run, seed, &id, tier, runs, journal_all) {
+    let m = match runner::run_all(def.run, def.isolated, seed, &id, tier, runs, journal_all) {
         Ok(m) => m,
         Err(runner::WorkerFail::Stuck(run)) => {
             on_stuck(run);
@@ -305,7 +329,7 @@ fn cmd_check(args: &[String]) -> i32 {
             // it depends on state the library kept from earlier worlds of the same run: replay the
             // run as a whole (worlds separated by world.reset), then minimise that
             println!("  note: the violating world alone does not reproduce; replaying run {} as a whole (hidden state across operations)", f.run);
-            match runner::run_level_schedule(def.run, seed, &id, tier, f.run, &f.v.oracle) {
+            match runner::recorded_schedule("run", seed, &id, tier, f.run, 1, &f.v.oracle) {
                 Some(full) => {
                     let (m, t) = runner::minimise(&full, &id, &f.v.oracle, 200);
                     let p = runner::write_replay(&replay_dir, &id, seed, tier, f, &m, true, gi);
@@ -320,7 +344,7 @@ fn cmd_check(args: &[String]) -> i32 {
             // kept process-wide from EARLIER RUNS of the same worker process; replay all of them
             println!("  note: run {} alone does not reproduce; replaying everything its worker process executed before it", f.run);
             let n = runner::workers().min(runs.max(1));
-            match runner::worker_level_schedule(def.run, seed, &id, tier, f.run, n, &f.v.oracle) {
+            match runner::recorded_schedule("worker", seed, &id, tier, f.run, n, &f.v.oracle) {
                 Some(full) => {
                     let p = runner::write_replay(&replay_dir, &id, seed, tier, f, &full, false, gi);
                     ok = confirm(&p);
